@@ -666,6 +666,15 @@ Record ufo := {
   u_lib : option pdict;                (* lib.plist (a dictionary), if the file exists *)
   u_features : option string }.        (* features.fea, if the file exists *)
 
+(** the part of a [DataRequest] the mechanism looks at (the other switches -- layers, groups,
+    kerning, data, images -- select files this model does not contain) *)
+Record request := {
+  q_lib : bool;                        (* request.lib *)
+  q_features : bool }.                 (* request.features *)
+Definition req_all : request := {| q_lib := true; q_features := true |}.
+
+Definition PUBLIC_OBJECT_LIBS_KEY : string := "public.objectLibs".
+
 Record loaded := {
   l_version : Z;
   l_info : kv;
@@ -673,10 +682,11 @@ Record loaded := {
   l_lib : pdict }.
 
 Definition load_with (conv : Z -> kv -> result kv cerr)
-  (hints : list (string * hval) -> kv -> kv) (u : ufo)
+  (hints : list (string * hval) -> kv -> kv) (q : request) (u : ufo)
   : result loaded lerr :=
   if negb ((u_version u =? 1) || (u_version u =? 2)) then Err EVersion else
-  let lib := match u_lib u with Some l => l | None => [] end in
+  (* [if request.lib && lib_path.exists() { load_lib } else { Plist::new() }] *)
+  let lib0 := match (if q_lib q then u_lib u else None) with Some l => l | None => [] end in
   match (match u_fontinfo u with
          | Some raw => from_file_with conv (u_version u) raw
          | None => Ok []
@@ -684,7 +694,13 @@ Definition load_with (conv : Z -> kv -> result kv cerr)
   | Err e => Err e
   | Panic s => Panic s
   | Ok info =>
-      let features := match u_features u with Some f => f | None => "" end in
+      (* [lib.remove(PUBLIC_OBJECT_LIBS_KEY)], unconditionally, after the font info is obtained *)
+      let lib := remove_key PUBLIC_OBJECT_LIBS_KEY lib0 in
+      (* [if request.features && features_path.exists() { load_features } else { default }] *)
+      let features := match (if q_features q then u_features u else None) with
+                      | Some f => f | None => "" end in
+      (* [if meta.format_version == V1 && lib_path.exists()]: the FILE is read again, whether or
+         not the lib was requested *)
       match (if u_version u =? 1 then u_lib u else None) with
       | Some libfile =>
           match robofab_with hints libfile lib info with
@@ -702,7 +718,7 @@ Definition load_with (conv : Z -> kv -> result kv cerr)
   end.
 
 (** the model of the code, and the same pipeline with the specification's tables *)
-Definition load_model : ufo -> result loaded lerr := load_with conv_code apply_hints.
-Definition load_spec : ufo -> result loaded lerr :=
+Definition load_model : request -> ufo -> result loaded lerr := load_with conv_code apply_hints.
+Definition load_spec : request -> ufo -> result loaded lerr :=
   load_with conv_spec (apply_hint_table spec_hint_table).
 
